@@ -167,3 +167,93 @@ def traversal_rule(repo, rid, title, funcs, why):
         for what, ok, detail in check(f):
             res.add('%s :: %s :: traverses(%s)' % (rel, qual, what), ok, detail if ok else detail + ' -- ' + why, f.loc)
     return res
+
+
+# ---------------------------------------------------------------------------------------------------------------
+# de Bruijn depth discipline
+
+def depth_functions(module):
+    """[(func, depth parameter)]: recursive functions over terms that use one of their parameters as the number
+    of binders passed so far - the bound-variable case compares / combines `X.n` with it, or returns Bound(param)"""
+    out = []
+    for f in module.all_funcs:
+        name = f.node.name
+        params = f.params()
+        if not any(_is_rec(c, name) for c in ast.walk(f.node) if isinstance(c, ast.Call)):
+            continue
+        br = _branches(f.node)
+        if 'is_abs' not in br:
+            continue
+        depth = None
+        for n in walk_no_nested(f.node, include_root=False):
+            if isinstance(n, (ast.Compare, ast.BinOp)):
+                names = {x.id for x in ast.walk(n) if isinstance(x, ast.Name)}
+                has_n = any(isinstance(x, ast.Attribute) and x.attr == 'n' for x in ast.walk(n))
+                terms = {x.value.id for x in ast.walk(n) if isinstance(x, ast.Attribute) and isinstance(x.value, ast.Name)}
+                cand = [p for p in params if p in names and p not in terms]
+                if has_n and cand:
+                    depth = cand[0]
+            if isinstance(n, ast.Call) and isinstance(n.func, ast.Name) and n.func.id == 'Bound' and n.args and isinstance(n.args[0], ast.Name) and \
+                    n.args[0].id in params:
+                depth = n.args[0].id
+        if depth:
+            # a list of binder types (`bd_vars[t.n]`, `len(bd_vars)`) is a context, not a counter: another discipline
+            is_list = any((isinstance(x, ast.Subscript) and isinstance(x.value, ast.Name) and x.value.id == depth) or
+                          (isinstance(x, ast.Call) and isinstance(x.func, ast.Name) and x.func.id == 'len' and x.args and
+                           isinstance(x.args[0], ast.Name) and x.args[0].id == depth) for x in ast.walk(f.node))
+            if not is_list:
+                out.append((f, depth))
+    return out
+
+
+def check_depth(func, depth):
+    """[(what, ok, detail)]: the recursion passes depth + 1 into the body of an abstraction and the depth
+    unchanged into the parts of an application"""
+    name = func.node.name
+    br = _branches(func.node)
+    params = func.params()
+    pos = params.index(depth)
+    out = []
+
+    def depth_arg(c):
+        # position among the call's arguments (methods: self is not in args for t.method(..) calls)
+        i = pos if isinstance(c.func, ast.Name) else pos - 1
+        if 0 <= i < len(c.args):
+            return c.args[i]
+        for k in c.keywords:
+            if k.arg == depth:
+                return k.value
+        return None
+    if 'is_abs' in br:
+        subj, body = br['is_abs']
+        calls = [c for st in body for c in ast.walk(st) if _is_rec(c, name)]
+        bad = []
+        for c in calls:
+            a = depth_arg(c)
+            ok = isinstance(a, ast.BinOp) and isinstance(a.op, ast.Add) and \
+                ((isinstance(a.left, ast.Name) and a.left.id == depth and isinstance(a.right, ast.Constant) and a.right.value == 1) or
+                 (isinstance(a.right, ast.Name) and a.right.id == depth and isinstance(a.left, ast.Constant) and a.left.value == 1))
+            if not ok:
+                bad.append(c)
+        out.append(('abstraction', bool(calls) and not bad,
+                    'the body is visited at depth %s + 1' % depth if calls and not bad else
+                    'the body of an abstraction is visited with `%s` as depth, not `%s + 1`: a bound variable of the term itself is taken for '
+                    'a loose one (or the other way round) under every binder' % (src(depth_arg(bad[0]), 30) if bad and depth_arg(bad[0]) is not None else '?', depth)))
+    if 'is_comb' in br:
+        subj, body = br['is_comb']
+        calls = [c for st in body for c in ast.walk(st) if _is_rec(c, name)]
+        bad = [c for c in calls if not (isinstance(depth_arg(c), ast.Name) and depth_arg(c).id == depth)]
+        out.append(('application', bool(calls) and not bad,
+                    'function part and argument are visited at the same depth' if calls and not bad else
+                    'a part of an application is visited at another depth than the application itself'))
+    return out
+
+
+def depth_rule(repo, rid, title, rels, floor, why):
+    from .core import RuleResult
+    res = RuleResult(rid, title, floor=floor)
+    for rel in rels:
+        for f, depth in depth_functions(repo.module(rel)):
+            for what, ok, detail in check_depth(f, depth):
+                res.add('%s :: %s :: depth(%s)@%s' % (rel, f.qualname, depth, what), ok, detail if ok else detail + ' -- ' + why, f.loc)
+    return res
